@@ -7,6 +7,7 @@
 -/
 import IocProofs.Lemmas.TagTotal
 import IocProofs.Lemmas.TagRound
+import IocProofs.Lemmas.TagConsume
 namespace Ioc.C19
 open Ioc Ioc.Tag
 
@@ -195,6 +196,72 @@ theorem C19_history_only_explicit_false (scanned req : Bool) (t t2 v : Bytes) (o
     simp only [create?, hs, if_true, Option.some.injEq] at hb
     exact ⟨A, a', by rw [h, ← hb], hreq⟩
 
+/-! ### consumers of arguments (seventh round): lookups hand out the items as stored; Property.Unmarshall -/
+
+/-- An argument always has at least one item: whatever the tag text, the parser never stores an empty item list
+    (a bare `name` and `name=` hold the one item ""), so a consumer's `args[0]` is in range. -/
+theorem C19_parsed_items_nonempty (s v : Bytes) (a : Args) (h : parse? s = some (v, a)) (k : Bytes) (items : List Bytes)
+    (hf : find a k = some items) : items ≠ [] :=
+  find_items_ne a k items (parse?_nonempty s v a h) hf
+
+/-- Find hands out the stored items unchanged — empty items included: an argument written `name=a  b` (two blanks)
+    is found with its three items. -/
+theorem C19_find_keeps_empty_items (m : Args) (k : Bytes) (hk : k ≠ []) (x y : Bytes) :
+    find (setArg m k [x, [], y]) k = some [x, [], y] :=
+  C19_set_find m k [x, [], y] hk
+
+/-- Totality reaches the consumer: for EVERY tag text, scanned by a scanner with any `Required` setting, the two
+    `args[0]` of Property.Unmarshall (`timeLayout`, `mapper`) are in range. -/
+theorem C19_unmarshall_total (req : Bool) (s v : Bytes) (a : Args) (h : scan? req s = some (v, a)) :
+    ∃ o, decodeOpts? a = some o := by
+  obtain ⟨v0, a0, hp⟩ := parse?_total s
+  simp only [scan?, hp, Option.map_some, Option.some.injEq, Prod.mk.injEq] at h
+  rw [← h.2]
+  have hn := parse?_nonempty s v0 a0 hp
+  apply decodeOpts?_total
+  · intro items hf; rw [find_scan_timeLayout] at hf; exact find_items_ne a0 _ items hn hf
+  · intro items hf; rw [find_scan_mapper] at hf; exact find_items_ne a0 _ items hn hf
+
+/-- The item reaches its consumer as written: for every tag text whose `timeLayout` argument has the first item `item`,
+    a text is bound exactly as time.Parse reads it with the layout `item` — no byte of the item added, dropped or joined. -/
+theorem C19_layout_as_written (req : Bool) (s v : Bytes) (a : Args) (h : scan? req s = some (v, a))
+    (item : Bytes) (more : List Bytes) (hl : find a kTimeLayout = some (item :: more)) (value : Bytes) :
+    bindTime? a value = some (.time (timeParse item value)) := by
+  obtain ⟨v0, a0, hp⟩ := parse?_total s
+  simp only [scan?, hp, Option.map_some, Option.some.injEq, Prod.mk.injEq] at h
+  rw [← h.2] at hl ⊢
+  apply bindTime?_item _ item more value hl
+  intro items hf; rw [find_scan_mapper] at hf
+  exact find_items_ne a0 _ items (parse?_nonempty s v0 a0 hp) hf
+
+/-- … and for a well-formed structured tag that item is the text between `timeLayout=` and the next top-level blank or
+    comma: a bracketed group (blanks and commas inside) is the layout, brackets included. -/
+theorem C19_layout_roundtrip (req : Bool) (v : Bytes) (pre : List (Bytes × List Bytes)) (item : Bytes) (more : List Bytes)
+    (hv : WFpre cComma isLB isRB v 0 = true) (hpre : ∀ x ∈ pre, WFArg x) (hit : WFArg (kTimeLayout, item :: more))
+    (value : Bytes) :
+    (scan? req (render v (pre ++ [(kTimeLayout, item :: more)]))).bind (fun va => bindTime? va.2 value)
+      = some (.time (timeParse item value)) := by
+  have hwf : ∀ x ∈ pre ++ [(kTimeLayout, item :: more)], WFArg x := by
+    intro x hx
+    simp only [List.mem_append, List.mem_singleton] at hx
+    rcases hx with hx | hx
+    · exact hpre x hx
+    · rw [hx]; exact hit
+  have hp := C19_roundtrip v _ hv hwf
+  have hs : scan? req (render v (pre ++ [(kTimeLayout, item :: more)]))
+      = some (v, scanDefault req ((pre ++ [(kTimeLayout, item :: more)]).foldl (fun m x => setArg m x.1 x.2) [])) := by
+    simp [scan?, hp]
+  rw [hs]
+  simp only [Option.bind_some]
+  apply C19_layout_as_written req _ v _ hs item more _ value
+  rw [find_scan_timeLayout, List.foldl_append]
+  simp only [List.foldl_cons, List.foldl_nil]
+  exact C19_set_find _ kTimeLayout (item :: more) (by decide)
+
+/-- An edit through `SetArg(name)` without items is the one way to an empty item list: the model pins the panic of
+    `args[0]` there (the parser never produces this state: C19_unmarshall_total). -/
+theorem C19_unmarshall_empty_list_panics : decodeOpts? (setArg [] kMapper []) = none := by decide
+
 /-! non-vacuity: concrete, non-trivial inputs meet the hypotheses -/
 
 example : parse? (ofString "a,required=false") = some (ofString "a", [(ofString "Required", [ofString "false"])]) := by decide
@@ -220,5 +287,22 @@ example : (hist? true true (ofString "l,required=true") [⟨false, ofString "req
 example : (hist? true true (ofString "l,required=true") [⟨false, ofString "required", [ofString "false"]⟩] (ofString "l,required=true")).map
       (fun r => (isRequired r.1.2, isRequired r.2.2)) = some (false, true) := by decide
 example : addArg [(ofString "Q", [ofString "a"])] (ofString "q") [ofString "b"] = [(ofString "Q", [ofString "a", ofString "b"])] := by decide
+-- consumers: a bare `mapper` holds the one item "" (TagName "" = mapstructure's default); a bracketed layout is the layout
+example : (scan? true (ofString "app,mapper")).map (fun va => bindTagName? va.2) = some (some (.tagName [])) := by decide
+example : (scan? true (ofString "app,Mapper=,required=true")).map (fun va => bindTagName? va.2) = some (some (.tagName [])) := by decide
+example : (scan? true (ofString "k,timeLayout=[2006-01-02]")).bind (fun va => bindTime? va.2 (ofString "[2024-05-06]"))
+    = some (.time (.ok 2024 5 6 0 0 0 0)) := by decide
+example : (scan? true (ofString "k,TimeLayout=(2006-01-02 15:04)")).bind (fun va => bindTime? va.2 (ofString "(2024-05-06 17:30)"))
+    = some (.time (.ok 2024 5 6 17 30 0 0)) := by decide
+example : (scan? true (ofString "k,timeLayout=2006-01-02")).bind (fun va => bindTime? va.2 (ofString "[2024-05-06]"))
+    = some (.time .err) := by decide
+-- an unbracketed blank splits the layout into two items; the first one is the layout
+example : (scan? true (ofString "k,timeLayout=2006-01-02 15:04")).bind (fun va => bindTime? va.2 (ofString "2024-05-06"))
+    = some (.time (.ok 2024 5 6 0 0 0 0)) := by decide
+example : (scan? true (ofString "k,timeLayout=")).bind (fun va => bindTime? va.2 (ofString "2024-05-06")) = some (.time .err) := by decide
+example : WFArg (kTimeLayout, [ofString "(2006-01-02 15:04)"]) := ⟨by decide, by decide, by decide, by decide⟩
+example : timeParse (ofString "02.01.2006") (ofString "31.02.2024") = .err := by decide
+example : timeParse (ofString "Jan 2") (ofString "Feb 3") = .unmodelled := by decide
+example : find (setArg [] (ofString "x") [ofString "a", [], ofString "b"]) (ofString "X") = some [ofString "a", [], ofString "b"] := by decide
 
 end Ioc.C19
